@@ -328,8 +328,10 @@ impl Dev {
                 return Arrival::NotYet;
             }
         }
-        if pol.trickle && at_b && fpoll >= 1 {
-            // exactly once per poll; the next poll starts with frames_this_poll = 0
+        if pol.trickle && at_b && fpoll >= 1 && consec < 1 {
+            // once per poll (the next poll starts with frames_this_poll = 0). Bounded
+            // like every other "not yet": a receiver that keeps waiting gets the data.
+            self.rx.borrow_mut().consec_wb += 1;
             return Arrival::NotYet;
         }
         let rate = if at_b { pol.wb_boundary } else { pol.wb_inside };
